@@ -122,7 +122,22 @@ func (w *dnsWorld) c10Check(when string) {
 		g, inKern := w.kern.m[k]
 		switch {
 		case inKern && !inExp:
-			w.s.Failf("c10-stale-address@"+w.kern.writerClass(k), "%s: domain_routing_map holds %s (bitmap %s) but no live cache entry with a non-zero domain bitmap lists that address (entries listing it: %s); last written by %s",
+			cls := w.kern.writerClass(k)
+			if cls == "sync-update" {
+				// written (again) after the entry holding this address had already been replaced
+				// in the cache: the side effects of two inserts ran in the opposite order
+				for _, a := range w.answers {
+					if len(a.ips) == 0 || dnsKernKey(a.ips[0]) != k {
+						continue
+					}
+					for _, e := range w.track.byAnswer(a.id) {
+						if e.removed && e.replaced && w.kern.lastStep[k] > e.removeStep {
+							cls = "sync-update-after-entry-was-replaced"
+						}
+					}
+				}
+			}
+			w.s.Failf("c10-stale-address@"+cls, "%s: domain_routing_map holds %s (bitmap %s) but no live cache entry with a non-zero domain bitmap lists that address (entries listing it: %s); last written by %s",
 				when, dnsKernKeyString(k), dnsBitmapString(g), w.c10Owners(k), w.kern.lastWriter[k])
 			return
 		case !inKern && inExp:
@@ -173,6 +188,7 @@ func (k *dnsKernMap) noteWriter(keys [][4]uint32, op string) {
 	}
 	for _, key := range keys {
 		k.lastWriter[key] = who
+		k.lastStep[key] = k.w.s.Step
 	}
 }
 
